@@ -128,7 +128,7 @@ def run(tier, seed):
     rnd = random.Random(seed + 20)
     evals, viol = 0, []
     shapes = set()
-    for _ in range(700 if tier == "quick" else 40000):
+    for _ in range(700 if tier == "quick" else 12000):
         text, n = c06.gen(rnd)
         s2 = rnd.getrandbits(32)
         bad, calls = one(text, n, random.Random(s2))
